@@ -186,6 +186,17 @@ def main(argv):
         if nout < fam.min_outcomes and fr.n >= fam.min_outcomes:
             vac.append(f"{fam.name}: only {nout} distinct outcome(s) from {fr.n} executions")
 
+    anchor_rep = {}
+    if os.environ.get("VERIF_NO_ANCHORS") != "1":
+        try:
+            from . import anchors
+
+            engine._worker_init()
+            anchor_rep = anchors.probe(pid, fams, seed, engine.REPO)
+            engine._clean_tmp()
+        except Exception as e:  # noqa: BLE001
+            anchor_rep = {"error": repr(e)}
+    mod.ANCHOR_REPORT = anchor_rep
     wall = time.time() - t0
     ev_path = evidence.write(pid, tier, seed, results, known_hits, unknown, vac, wall, mod, cpath)
 
